@@ -466,6 +466,26 @@ theorem dfs_misses_path_witness :
     walkEnd 0 [⟨0, 1, 10, some 500⟩, ⟨1, 3, 13, some 100⟩] = 3 := by
   refine ⟨by decide, by decide, by decide, by decide⟩
 
+/-- source 0, middle tokens 1–4, hub 5, target 6: the hub is reached four times (newest edge first)
+with distances 2.21, 2.15, 2.42 (pruned) and 1.57. -/
+def gFan : Graph :=
+  ⟨7, [⟨0, 1, 10, some 48⟩, ⟨1, 0, 10, none⟩, ⟨0, 2, 11, some 179⟩, ⟨2, 0, 11, some 222⟩,
+       ⟨0, 3, 12, some 144⟩, ⟨3, 0, 12, none⟩, ⟨0, 4, 13, some 87⟩, ⟨4, 0, 13, some 272⟩,
+       ⟨1, 5, 14, some 109⟩, ⟨5, 1, 14, some 51⟩, ⟨2, 5, 15, some 63⟩, ⟨5, 2, 15, none⟩,
+       ⟨3, 5, 16, some 71⟩, ⟨5, 3, 16, none⟩, ⟨4, 5, 17, some 134⟩, ⟨5, 4, 17, none⟩,
+       ⟨5, 6, 18, some 58⟩, ⟨6, 5, 18, none⟩], 5⟩
+
+/-- Non-monotone arrivals (regression for seed C42-2): a pruned arrival must not keep the token
+marked as visited — the later, strictly cheaper arrival through token 1 wins, in DFS mode exactly as
+in Bellman–Ford mode. (`dfs_optimal_without_negative_cycle` as a universal statement is FALSE —
+`dfs_misses_path_witness`; where no cheaper-or-equal arrival can shadow the better path the
+oracle demands optimality on every run, see design.d/C42.md.) -/
+theorem dfs_nonmonotone_arrivals_example :
+    report gFan 0 true 5 = some (some 157, [10, 14]) ∧
+    report gFan 0 true 6 = some (some 215, [10, 14, 18]) ∧
+    report gFan 0 false 6 = some (some 215, [10, 14, 18]) := by
+  refine ⟨by decide, by decide, by decide⟩
+
 /-! ### Non-vacuity -/
 example : report (gBF 3) 0 false 3 = some (some 300, [11, 12, 13]) := by decide
 example : report (gBF 3) 0 true 3 = some (some 300, [11, 12, 13]) := by decide
